@@ -5,7 +5,17 @@
 
 A generated document holds, for every feature named in "n", `count` DISTINCT instances of that feature (distinct style
 names, hyperlink targets, bookmark names, image payloads, table contents, list items, notes, comments, recipients,
-attachments, archive members, sheets ...).  The bytes depend on the spec only (tokens come from Tokens(0): the token
+attachments, archive members, sheets ...).  Besides counted features there are on/off features (FLAGS, count 1) and CHOICE
+features whose number selects a variant:
+    optional information absent at every level (third-party readers substitute defaults - clock, generator names, random
+    names - exactly there):  nocore / nometa = OOXML / ODF package without the core-properties / meta.xml part (a document
+    without "meta" already has an EMPTY <cp:coreProperties/>),  emptymeta = meta.xml with an empty <office:meta/>,
+    bare = e-mail without Date and Message-ID headers,  noname = attachments without a file name,  rfc822 = an embedded
+    message/rfc822 part;
+    pdf "enc" = 1..8, the forms of the standard security handler (PDF_ENC): legacy RC4-40 / RC4-128, and the crypt-filter
+    forms /V 4 with /CFM /V2 or /AESV2 and /V 5 with /AESV3, each with the conventional filter name /StdCF and with another
+    name (the name is free: /StmF and /StrF reference it);  userpw = non-empty user password (the library has to refuse).
+The bytes depend on the spec only (tokens come from Tokens(0): the token
 alphabet permutation of VERIF_SEED is irrelevant for this property and would only make inputs seed dependent).
 
     FEATURES[fmt]          the features the format's builder understands (in canonical order)
@@ -64,14 +74,14 @@ def jpeg(uid: int, w: int = 16, h: int = 8) -> bytes:
 _TEXT = ["paras", "heads", "links", "images", "tables", "lists"]
 FEATURES = {
     "docx": _TEXT + ["styles", "notes", "comments", "revs", "boxes", "math", "units", "meta", "nocore"],
-    "odt": _TEXT + ["bookmarks", "notes", "comments", "revs", "units", "meta", "nometa"],
+    "odt": _TEXT + ["bookmarks", "notes", "comments", "revs", "units", "meta", "nometa", "emptymeta"],
     "rtf": _TEXT + ["notes", "comments", "revs", "units", "meta"],
     "pptx": _TEXT + ["notes", "comments", "math", "units", "meta", "nocore"],
-    "odp": _TEXT + ["notes", "units", "meta", "nometa"],
-    "odg": _TEXT + ["units", "meta", "nometa"],
+    "odp": _TEXT + ["notes", "units", "meta", "nometa", "emptymeta"],
+    "odg": _TEXT + ["units", "meta", "nometa", "emptymeta"],
     "odf": ["paras", "meta"],
     "ppt": ["paras", "heads", "images", "notes", "units", "meta"],
-    "pdf": ["paras", "heads", "images", "units", "meta"],
+    "pdf": ["paras", "heads", "images", "units", "meta", "enc", "userpw"],
     "html": _TEXT + ["meta"],
     "mhtml": _TEXT + ["meta"],
     "epub": _TEXT + ["units", "meta"],
@@ -80,18 +90,28 @@ FEATURES = {
     "json": ["paras"],
     "csv": ["rows"],
     "xlsx": ["rows", "sheets", "images", "meta", "nocore"],
-    "ods": ["rows", "sheets", "images", "meta", "nometa"],
+    "ods": ["rows", "sheets", "images", "meta", "nometa", "emptymeta"],
     "xls": ["rows", "sheets", "images", "meta"],
-    "eml": ["rcpts", "atts", "html"],
-    "mbox": ["msgs", "rcpts", "atts", "html"],
+    "eml": ["rcpts", "atts", "html", "bare", "noname", "rfc822"],
+    "mbox": ["msgs", "rcpts", "atts", "html", "bare", "noname"],
     "zip": ["members"],
     "tar": ["members"],
     "tgz": ["members"],
     "7z": ["members"],
 }
 GEN_FORMATS = list(FEATURES)
-FLAGS = ("meta", "html", "nocore", "nometa")     # on/off features (count 1); "nocore" / "nometa" = the package has no
-#                                                  docProps/core.xml / meta.xml part (both parts are optional) and exclude "meta"
+FLAGS = ("meta", "html", "nocore", "nometa", "emptymeta", "bare", "noname", "rfc822", "userpw")     # on/off features (count 1)
+NOMETA = ("nocore", "nometa", "emptymeta")       # the package has no docProps/core.xml / no meta.xml part (both parts are optional) /
+#                                                  an empty <office:meta/>; they exclude "meta" and each other
+CHOICES = {"enc": 8}                             # feature -> number of variants (the value selects the variant, it is not a count)
+VARIANTS = NOMETA + ("bare", "noname", "rfc822", "enc", "userpw")    # not part of the rich document: documents of their own
+# pdf "enc": (algorithm of verif.gen.pdfw, crypt filter | None)
+PDF_ENC = {1: ("RC4-40", None), 2: ("RC4-128", None),
+           3: ("RC4-128", {"name": "StdCF", "cfm": "V2"}), 4: ("RC4-128", {"name": "StdCF", "cfm": "AESV2"}),
+           5: ("RC4-128", {"name": "StdCF", "cfm": "AESV3"}),
+           6: ("RC4-128", {"name": "VerifCF", "cfm": "V2"}), 7: ("RC4-128", {"name": "VerifCF", "cfm": "AESV2"}),
+           8: ("RC4-128", {"name": "VerifCF", "cfm": "AESV3"})}
+PDF_ENC_BASE = {"paras": 2, "images": 1, "meta": 1}      # an encrypted document has strings and streams of every kind to decrypt
 EXT = {"tgz": "tar.gz"}
 
 
@@ -157,7 +177,7 @@ def _adm_blocks(fmt, n, b: _B, first_unit=True):
 
 def _adm_doc(fmt, n, b: _B):
     meta = {}
-    if n.get("meta") and not (n.get("nocore") or n.get("nometa")):
+    if n.get("meta") and not any(n.get(k) for k in NOMETA):
         meta = {"title": b.t("Z"), "author": b.t("Z"), "subject": b.t("Z"), "keywords": b.t("Z") + ", " + b.t("Z")}
         if fmt not in ("pdf",):
             meta["description"] = b.t("Z")
@@ -255,6 +275,21 @@ def _odt_bookmarks(data: bytes) -> bytes:
     return _rezip(data, edit)
 
 
+_ODF_META = re.compile(rb"<office:meta>.*</office:meta>", re.S)
+
+
+def _odf_empty_meta(data: bytes) -> bytes:
+    """meta.xml present, but <office:meta/> has no child (every child of office:meta is optional)"""
+    def edit(name, payload):
+        if name == "meta.xml":
+            out, k = _ODF_META.subn(b"<office:meta/>", payload)
+            if k != 1:
+                raise ValueError("meta.xml of the ODF writer has no <office:meta> element")
+            return out
+        return payload
+    return _rezip(data, edit)
+
+
 # -------------------------------------------------------------------------------------------------------- html family
 
 def _html_body(n, b: _B, img_src):
@@ -331,7 +366,7 @@ def _sheets(fmt, n, b: _B):
             grid.append([["s", b.t("C")], kinds[r % len(kinds)], kinds[(r + 3) % len(kinds)]])
         sheets.append(["sheet", b.t("N"), grid])
     meta = {}
-    if n.get("meta") and not (n.get("nocore") or n.get("nometa")):
+    if n.get("meta") and not any(n.get(k) for k in NOMETA):
         meta = {"title": b.t("Z"), "author": b.t("Z"), "subject": b.t("Z"), "keywords": b.t("Z"), "description": b.t("Z")}
     return ["doc", meta, sheets]
 
@@ -347,8 +382,10 @@ def _mail_spec(n, b: _B, i=0):
         spec["cc"] = [[b.t("N"), "cc%d@verif.example" % j] for j in range(k)]
         spec["bcc"] = [[None, "bcc%d@verif.example" % j] for j in range(k)]
         spec["reply_to"] = [[b.t("N"), "rt%d@verif.example" % j] for j in range(min(k, 2))]
-    a = n.get("atts", 0)
+    a = n.get("atts", 0) or (2 if n.get("noname") else 0)
     html = n.get("html", 0)
+    if n.get("bare"):
+        spec["message_id"] = None
     if a:
         spec["structure"] = "mixed-alt-att" if html else "mixed-plain-att-att"
         atts = []
@@ -365,12 +402,31 @@ def _mail_spec(n, b: _B, i=0):
                              "data_hex": bytes(range(j, j + 40)).hex()})
             else:
                 atts.append({"filename": "pic%d.png" % j, "ctype": "image/png", "cte": "base64", "data_hex": png(j + 1).hex()})
+        if n.get("noname"):
+            for x in atts:
+                x["filename"] = None
         spec["attachments"] = atts
+        if n.get("rfc822"):
+            spec["structure"] = "rfc822-attachment"
+    elif n.get("rfc822"):
+        spec["structure"] = "rfc822-attachment"
+        spec["attachments"] = [{"filename": "note.txt", "ctype": "text/plain", "cte": "base64", "data_hex": (b.t("B") + " attached\n").encode("ascii").hex()}]
     elif html:
         spec["structure"] = "alternative"
-    if html:
+    if html and spec.get("structure") != "rfc822-attachment":
         spec["body_html"] = "<html><body><p>%s</p><p>%s</p></body></html>\n" % (b.t("B"), b.t("B"))
     return spec
+
+
+_DATE_HDR = re.compile(rb"^Date:[^\r\n]*(?:\r?\n[ \t][^\r\n]*)*\r?\n", re.M)
+
+
+def _mail_bare(data: bytes) -> bytes:
+    """drop every Date header field (the writer always writes one; generated bodies have no line starting with 'Date:')"""
+    out, k = _DATE_HDR.subn(b"", data)
+    if not k:
+        raise ValueError("no Date header to drop")
+    return out
 
 
 # ----------------------------------------------------------------------------------------------------------- archives
@@ -453,7 +509,7 @@ def _build_gen(fmt, n) -> bytes:
         data = getattr(odf, fmt)(doc, b.images, {"omit_parts": ["meta.xml"]} if n.get("nometa") else {})
         if fmt == "odt" and n.get("bookmarks"):
             data = _odt_bookmarks(data)
-        return data
+        return _odf_empty_meta(data) if n.get("emptymeta") and not n.get("nometa") else data
     if fmt == "rtf":
         from verif.gen import rtf
         b = _B("png")
@@ -461,7 +517,13 @@ def _build_gen(fmt, n) -> bytes:
     if fmt == "pdf":
         from verif.gen import pdfw
         b = _B("jpeg")
-        return pdfw.pdf(_adm_doc(fmt, n, b), b.images, {})
+        opts = {}
+        if n.get("enc"):
+            alg, cf = PDF_ENC[n["enc"]]
+            opts["encrypt"] = {"user": "Verif-user" if n.get("userpw") else "", "owner": "Verif-owner", "algorithm": alg}
+            if cf:
+                opts["encrypt"]["crypt_filter"] = dict(cf)
+        return pdfw.pdf(_adm_doc(fmt, n, b), b.images, opts)
     if fmt == "ppt":
         from verif.gen import pptbin
         b = _B("jpeg")
@@ -501,16 +563,19 @@ def _build_gen(fmt, n) -> bytes:
             o = {"images_at": [[0, k] for k in keys]} if keys else {}
             if n.get("nometa"):
                 o["omit_parts"] = ["meta.xml"]
-            return odf.ods(doc, b.images, o)
+            data = odf.ods(doc, b.images, o)
+            return _odf_empty_meta(data) if n.get("emptymeta") and not n.get("nometa") else data
         from verif.gen import biff8
         return biff8.xls(doc, {k: v[0] for k, v in b.images.items()}, {"pictures": [[0, k] for k in keys]} if keys else {})
     if fmt in ("eml", "mbox"):
         from verif.gen import mail
         b = _B()
         if fmt == "eml":
-            return mail.eml(_mail_spec(n, b))
-        specs = [_mail_spec(n if i == 0 else {}, b, i) for i in range(max(1, n.get("msgs", 0)))]
-        return mail.mbox(specs, {})
+            data = mail.eml(_mail_spec(n, b))
+            return _mail_bare(data) if n.get("bare") else data
+        specs = [_mail_spec(n if i == 0 else ({"bare": 1} if n.get("bare") else {}), b, i) for i in range(max(1, n.get("msgs", 0)))]
+        data = mail.mbox(specs, {})
+        return _mail_bare(data) if n.get("bare") else data
     if fmt in ("zip", "tar", "tgz", "7z"):
         b = _B()
         mem = _members(n, b)
@@ -540,9 +605,19 @@ def fixture_specs():
     return sorted(out, key=lambda s: s["fix"])
 
 
+def _values(f, single=False, quick=True):
+    if f in CHOICES:
+        return list(range(1, CHOICES[f] + 1))
+    if f in FLAGS:
+        return [1]
+    return [5] if quick or not single else [5, 6, 8]
+
+
 def gen_specs(tier):
     """rich document (every feature of the format, 2 of each; thorough also 3 of each), every single feature with 5
-    (thorough also 6 and 8) distinct instances, thorough: every pair of features with 5 instances each."""
+    (thorough also 6 and 8) distinct instances / every flag / every variant of a choice feature (pdf: every encryption form on
+    the base document PDF_ENC_BASE, with and without a user password), thorough: every pair of features (5 instances each,
+    every variant of a choice)."""
     quick = tier == "quick"
     out = []
     for fmt in GEN_FORMATS:
@@ -550,23 +625,36 @@ def gen_specs(tier):
         out.append({"gen": fmt, "n": {}})
         out.append(rich_spec(fmt, 2))
         for f in feats:
-            if f in FLAGS:
-                out.append({"gen": fmt, "n": {f: 1}})
-                continue
-            for k in ((5,) if quick else (5, 6, 8)):
-                out.append({"gen": fmt, "n": {f: k}})
+            if f == "userpw":
+                continue                      # only meaningful together with "enc" (below)
+            for k in _values(f, True, quick):
+                if f == "enc":
+                    out.append({"gen": fmt, "n": dict(PDF_ENC_BASE, enc=k)})
+                    out.append({"gen": fmt, "n": dict(PDF_ENC_BASE, enc=k, userpw=1)})
+                else:
+                    out.append({"gen": fmt, "n": {f: k}})
         if not quick:
             out.append(rich_spec(fmt, 3))
             for f, g in itertools.combinations(feats, 2):
-                if {f, g} in ({"meta", "nocore"}, {"meta", "nometa"}):
+                if f in NOMETA + ("meta",) and g in NOMETA + ("meta",):
                     continue
-                out.append({"gen": fmt, "n": {f: 1 if f in FLAGS else 5, g: 1 if g in FLAGS else 5}})
-    return out
+                if "userpw" in (f, g):
+                    continue
+                for kf in _values(f):
+                    for kg in _values(g):
+                        out.append({"gen": fmt, "n": {f: kf, g: kg}})
+    seen, uniq = set(), []
+    for s in out:
+        if spec_key(s) not in seen:
+            seen.add(spec_key(s))
+            uniq.append(s)
+    return uniq
 
 
 def rich_spec(fmt, k=2):
-    """every feature of the format with k instances (flags once; the no-metadata-part variants are separate documents)"""
-    return {"gen": fmt, "n": {f: (1 if f in FLAGS else k) for f in FEATURES[fmt] if f not in ("nocore", "nometa")}}
+    """every feature of the format with k instances (flags once; the variants - no metadata part, encryption forms, bare
+    e-mails ... - are separate documents)"""
+    return {"gen": fmt, "n": {f: (1 if f in FLAGS else k) for f in FEATURES[fmt] if f not in VARIANTS}}
 
 
 def universe(tier):
@@ -588,7 +676,7 @@ def shrink_spec(spec):
         del d[k]
         yield {"gen": spec["gen"], "n": d}
     for k in sorted(n):
-        if n[k] > 1:
+        if n[k] > 1 and k not in CHOICES:
             for v in sorted({1, n[k] // 2, n[k] - 1}):
                 if 0 < v < n[k]:
                     d = dict(n)
@@ -604,6 +692,6 @@ def spec_embeds(small, big) -> bool:
             if small["gen"] != big["gen"]:
                 return False
             bn = big.get("n") or {}
-            return all(bn.get(k, 0) >= v for k, v in (small.get("n") or {}).items() if v)
+            return all((bn.get(k, 0) == v if k in CHOICES else bn.get(k, 0) >= v) for k, v in (small.get("n") or {}).items() if v)
         return True
     return "fix" in big and small["fix"] == big["fix"]
